@@ -66,6 +66,16 @@ def r2_flatten(rule, root=None):
             rule.ok("remap_affine flattens onto the inner target with `existing * new`", file=TREE, line=fn["ln"])
         else:
             rule.bad("flatten", "remap_affine flattens to `mat: %s`, target `%s`; the existing (inner) matrix must be applied after the new one: `%s * %s` on the inner target" % (f.get("mat"), f.get("target"), inner, param), A.where(fn, st))
+    # ... and nothing else: any other TreeOp it constructs (pushing the matrix into an operator's arguments,
+    # say) is a rewrite nobody vetted - a bare axis next to a remapped sibling would keep the old coordinate
+    other = []
+    for n_ in A.walk(fn["body"]):
+        if isinstance(n_, dict) and n_.get("k") in ("Struct", "Call"):
+            segs_ = (A.path_segs(n_["path"]) if n_.get("k") == "Struct" else A.path_segs(n_["func"])) or []
+            if len(segs_) >= 2 and segs_[-2] == "TreeOp" and segs_[-1] != "RemapAffine":
+                other.append((segs_[-1], n_))
+    if other:
+        rule.bad("flatten|unvetted", "remap_affine also builds TreeOp::%s: an affine remap is either folded into an existing RemapAffine or wrapped around the tree - distributing it over another node changes which coordinates its leaves read" % other[0][0], A.where(fn, other[0][1]))
     if wrap is not None and wrap[0] == {"target": "self.0.clone()", "mat": param}:
         rule.ok("a non-affine tree is wrapped with the given matrix")
     else:
@@ -188,6 +198,23 @@ def r3_frames(rule, root=None):
             rule.ok("a pending matrix is deferred only onto a directly nested affine remap", file=CTX, line=defer[0]["ln"])
         else:
             rule.bad("frames|defer", "the pending affine matrix is deferred when the target matches %s; only a directly nested RemapAffine composes with it - any other node must see the matrix as a frame first" % sorted(vs), A.where(fn, defer[0]))
+    # RemapAxes: the three new axes are imported in the *current* frame, deferred through the work list in the
+    # order the Up step pops them (x pushed first = popped last); pushing some of them onto the value stack
+    # right away puts them below the deferred ones and permutes the frame
+    for arm in A.find(fn["body"], "Arm"):
+        pt = str(A.ftxt(arm["pat"]))
+        if not pt.startswith("TreeOp::RemapAxes{") or "Action::Up" in pt:
+            continue
+        pushes = [str(A.ftxt(c_["args"][0])) for c_ in A.find(arm["body"], "MethodCall") if c_["method"] == "push" and A.ident(A.strip(c_["recv"])) == "todo" and c_["args"]]
+        direct = [c_ for c_ in A.find(arm["body"], "MethodCall") if c_["method"] in ("push", "extend", "insert") and A.ident(A.strip(c_["recv"])) == "stack"]
+        names = A.struct_pat_bindings(arm["pat"]) if arm["pat"].get("k") == "PStruct" else {}
+        xs, ys, zs = names.get("x"), names.get("y"), names.get("z")
+        if direct:
+            rule.bad("frames|remap-axes|direct", "the RemapAxes arm pushes a value straight onto the value stack (`%s`): the Up step pops z, y, x in that order, and a value pushed now lies below every deferred argument" % str(A.ftxt(direct[0]))[:60], A.where(fn, direct[0]))
+        elif xs and pushes[-3:] == ["Action::Down(%s)" % xs, "Action::Down(%s)" % ys, "Action::Down(%s)" % zs] and pushes[:1] == ["Action::Up(t)"]:
+            rule.ok("RemapAxes defers x, y, z through the work list in the order the Up step pops them", file=CTX, line=arm["ln"])
+        elif xs and "Action::Up(t)" in pushes:
+            rule.bad("frames|remap-axes|order", "the RemapAxes arm queues %s; it must queue Up(t) and then Down(x), Down(y), Down(z)" % pushes, A.where(fn, arm))
     if t.fmatch("letmut%s=vec!((self.x(),self.y(),self.z()));" % axes_n) is not None:
         rule.ok("the root frame is (x, y, z)")
     else:
@@ -210,8 +237,21 @@ def r4_cache_keys(rule, root=None):
                 rule.bad("cache|%s|%d" % (c["method"], n), "the import cache is accessed with key `%s`; a subtree's import depends on the frame it is under, so the key must be %s" % (k, key), A.where(fn, c))
     if n < 3:
         rule.lost("cache accesses in Context::import (found %d)" % n)
-    # cached results are only reused for Unary / Binary nodes (whose value is a function of the frame)
+    # the keys are addresses of tree nodes: valid only while the tree being imported is alive, i.e. for one call
     t = A.ftxt(fn["body"])
+    maps = set()
+    for c in A.find(fn["body"], "MethodCall"):
+        if c["method"] in ("get", "insert") and c["args"] and "Arc::as_ptr(" in A.unparse(c["args"][0]).replace(" ", "") and A.ident(A.strip(c["recv"])):
+            maps.add(A.ident(A.strip(c["recv"])))
+    for mname in sorted(maps):
+        lets = [s_ for s_ in A.find(fn["body"], "Let") if A.binding_name(s_["pat"]) == mname and s_.get("init") is not None]
+        init = str(A.ftxt(lets[0]["init"])) if len(lets) == 1 else None
+        import re as _re
+
+        if init is not None and _re.fullmatch(r"(std::collections::)?(HashMap|BTreeMap)(::<.*>)?::(new\(\)|default\(\)|with_capacity\(.*\))|Default::default\(\)", init):
+            rule.ok("the import cache `%s` starts empty in every call (its keys are addresses of the tree being imported)" % mname, file=CTX, line=lets[0]["ln"])
+        else:
+            rule.bad("cache|lifetime", "the import cache `%s` is initialised with `%s`: it is keyed by the addresses of tree nodes, which are only meaningful while that tree is alive - a cache that survives the call hands a freed tree's node to whatever is allocated at the same address" % (mname, init), A.where(fn, lets[0] if lets else None))
     if t.count("matches!(t.as_ref(),TreeOp::Unary(..) | TreeOp::Binary(..))") + t.count("matches!(t.as_ref(),TreeOp::Unary(..)|TreeOp::Binary(..))") >= 2:
         rule.ok("cache lookups and inserts are restricted to Unary / Binary nodes")
     else:
